@@ -2,7 +2,8 @@
    Over exact real arithmetic, for ALL data sets of every size, all non-negative
    weights with positive total, all admissible parameters. *)
 From Coq Require Import Reals List Lra.
-From ADV Require Import Base.Num C16.Model C16.Spec C16.ProofsMax C16.ProofsEM C16.ProofsModel.
+From ADV Require Import Base.Num C16.Model C16.ModelHmm C16.Spec C16.ProofsMax C16.ProofsEM C16.ProofsModel
+  C16.ProofsBW C16.ProofsBW2 C16.ProofsBW3.
 Import ListNotations.
 Open Scope R_scope.
 
@@ -131,15 +132,70 @@ Example em_hypotheses_satisfiable :
   (forall l, (l < 2)%nat -> 0 < mix 2 pi f l) /\ rsum 2 pi <= 1.
 Proof. simpl. split; [intros l _; unfold mix; simpl; lra|simpl; lra]. Qed.
 
-(* Baum-Welch (stretch) — proved part: the latent-variable bound that every EM step rests on, for ANY finite
-   latent space (K = number of hidden paths, a z = p(x, z | theta), a' z = p(x, z | theta')):
-     ln p(x | theta') - ln p(x | theta) >= sum_z posterior(z) (ln a' z - ln a z) = Q(theta'|theta) - Q(theta|theta).
-   NOT closed here: the factorisation of Q over the HMM's transition / emission tables through the path
-   posterior marginals (gamma, xi of BaumWelchStep) and therefore Baum-Welch ascent itself; the HMM step is
-   not part of coq/C16/Model.v. *)
-Theorem latent_variable_bound_baum_welch_partial : forall K (a a' : nat -> R),
+(* The latent-variable bound every EM step rests on, for ANY finite latent space (K = number of latent
+   values, a z = p(x, z | theta), a' z = p(x, z | theta')):
+     ln p(x | theta') - ln p(x | theta) >= sum_z posterior(z) (ln a' z - ln a z). *)
+Theorem latent_variable_bound : forall K (a a' : nat -> R),
   (forall k, (k < K)%nat -> 0 <= a k) -> (forall k, (k < K)%nat -> 0 <= a' k) ->
   0 < rsum K a -> (forall k, (k < K)%nat -> 0 < a k -> 0 < a' k) ->
   0 < rsum K a' /\
   rsum K (fun k => a k / rsum K a * (ln (a' k) - ln (a k))) <= ln (rsum K a') - ln (rsum K a).
 Proof. exact em_datum. Qed.
+
+(* (2') Baum-Welch.  ModelHmm.v is the linear-scale model of BaumWelchStep (one worker thread, no start /
+   final states): forward / backward vectors of the chain a_0(i) = Pi(i) e(i,0), f_t(i,j) = Tr(i,j) e(j,t+1);
+   gamma_k = alpha_k beta_k / sum_i alpha_k(i) beta_k(i); xi_t(i,j) = alpha_t(i) Tr(i,j) beta_{t+1}(j) e(j,t+1)
+   / (its sum over i,j); Pi' = normalised sum_s gamma^s_0, Tr' = row-normalised sum_{s,t} xi^s_t (a row
+   without expected transitions becomes the identity row); likelihood of a sequence = sum_i alpha_{n-1}(i)
+   (= the sum over all state paths of the path weight: coq/C15 forward_is_path_sum / logpdf_is_enumeration).
+
+   The bound for a chain of non-negative factors, proved by induction along the chain with one Jensen step per
+   position (no path enumeration): the quantities on the left are the unnormalised expected counts. *)
+Theorem hmm_chain_jensen_bound : forall M fs fs' a a', length fs = length fs' ->
+  nonneg1 M a -> nonneg1 M a' -> Forall (nonneg2 M) fs -> Forall (nonneg2 M) fs' ->
+  (forall i, (i < M)%nat -> 0 < a i * c_bwd NumR M fs i -> 0 < a' i) ->
+  c_supp M a fs fs' ->
+  rsum M (fun i => a i * c_bwd NumR M fs i * (ln (a' i) - ln (a i))) + c_Q M a fs fs'
+  <= c_L M a fs * (ln (c_L M a' fs') - ln (c_L M a fs)).
+Proof. exact chain_bound. Qed.
+
+(* the two normalisers BaumWelchStep computes (sum_i alpha_k(i) beta_k(i) at every position, sum_ij xi0_t(i,j) at
+   every transition) and the reported likelihood sum_i alpha_{n-1}(i) are one and the same number *)
+Theorem baum_welch_normalisers_are_the_likelihood : forall M n pi tr e,
+  (1 <= n)%nat ->
+  (forall k, (k <= n - 1)%nat -> rsum M (sq_g0 M n pi tr e k) = rsum M (sq_al M n pi tr e (n - 1))) /\
+  (forall t, (t < n - 1)%nat -> rsum M (fun i => rsum M (fun j => sq_x0 M n pi tr e t i j)) = rsum M (sq_al M n pi tr e (n - 1))).
+Proof.
+  intros M n pi tr e Hn. split.
+  - intros k Hk. rewrite lik_is_L. apply g0_total. exact Hk.
+  - intros t Ht. rewrite lik_is_L. apply x0_total; assumption.
+Qed.
+
+(* Baum-Welch ascent: for every number of states M, every data set (nseq sequences of lengths len s >= 1),
+   every sub-stochastic initialisation with zeros anywhere (as long as every sequence has positive likelihood),
+   one step of the model with emission densities e' that come from M-steps which do not decrease the
+   gamma-weighted log-likelihood (exact M-steps: theorems (1)) and are positive where gamma is, never decreases
+   the data log-likelihood. *)
+Theorem baum_welch_step_never_decreases_likelihood : forall M nseq len pi tr e e',
+  (forall s, (s < nseq)%nat -> (1 <= len s)%nat) ->
+  nonneg1 M pi -> rsum M pi <= 1 ->
+  nonneg2 M tr -> (forall i, (i < M)%nat -> rsum M (tr i) <= 1) ->
+  (forall s j k, (j < M)%nat -> 0 <= e s j k) -> (forall s j k, (j < M)%nat -> 0 <= e' s j k) ->
+  (forall s, (s < nseq)%nat -> 0 < bw_lik NumR M len pi tr e s) ->
+  (forall s k j, (s < nseq)%nat -> (k < len s)%nat -> (j < M)%nat ->
+     0 < bw_gamma NumR M len pi tr e s k j -> 0 < e' s j k) ->
+  rsum nseq (fun s => rsum (len s) (fun k => rsum M (fun j => bw_gamma NumR M len pi tr e s k j * ln (e s j k))))
+  <= rsum nseq (fun s => rsum (len s) (fun k => rsum M (fun j => bw_gamma NumR M len pi tr e s k j * ln (e' s j k)))) ->
+  rsum nseq (fun s => ln (bw_lik NumR M len pi tr e s))
+  <= rsum nseq (fun s => ln (bw_lik NumR M len (bw_pi_new NumR M nseq len pi tr e) (bw_tr_new NumR M nseq len pi tr e) e' s)).
+Proof. exact baum_welch_ascent. Qed.
+
+(* the hypotheses are satisfiable: two states, one sequence of length 2, uniform parameters *)
+Example baum_welch_hypotheses_satisfiable :
+  let pi := fun _ : nat => 1/2 in let tr := fun _ _ : nat => 1/2 in let e := fun _ _ _ : nat => 1/2 in
+  nonneg1 2 pi /\ rsum 2 pi <= 1 /\ (forall i, (i < 2)%nat -> rsum 2 (tr i) <= 1) /\
+  0 < bw_lik NumR 2 (fun _ => 2%nat) pi tr e 0.
+Proof.
+  simpl. split; [intros i _; lra|]. split; [lra|]. split; [intros i _; lra|].
+  unfold bw_lik. rewrite gsum_R. simpl. unfold bw_alpha. simpl. unfold c_step, tabn. simpl. lra.
+Qed.
